@@ -9,19 +9,26 @@ from . import harness, pool, run, runlevel
 from .prng import stream, subseed
 
 
-def panel(seed, n):
+OFFSETS = [1e3, -1e3, 1e5, -1e5]
+
+
+def panel(seed, n, offset=False):
+    """offset=True: the same family plus a constant (|f*| far from zero, as for log-likelihoods);
+    the constant changes neither the minimiser nor the conditioning."""
     cases = []
     for i in range(n):
-        rng = stream(seed, f"c06/{i}")
+        rng = stream(seed, f"c06{'o' if offset else ''}/{i}")
         D = 1 + (i % 5)
         ev = [float(f"{10 ** rng.uniform(0, 2):.6g}") for _ in range(D)]
         c = [float(f"{rng.uniform(-4, 4):.6g}") for _ in range(D)]
         x0 = [float(f"{rng.uniform(-5, 5):.6g}") for _ in range(D)]
         scn = dict(v=1, seed=seed, profile="c06", index=i, D=D, lb=[-10.0] * D, ub=[10.0] * D, plb=[-5.0] * D, pub=[5.0] * D,
                    x0=x0, x0_class="inside", geom="sym", where="plausible",
-                   target=dict(family="quad", c=c, ev=ev, rot_seed=subseed(seed, f"c06rot/{i}") if D > 1 else None),
+                   target=dict(family="quad", c=c, ev=ev, rot_seed=subseed(seed, f"c06rot/{i}") if D > 1 else None,
+                               offset=(OFFSETS[i % len(OFFSETS)] if offset else 0.0)),
                    noise=None, noise_kind="none", cons=None, options=dict(random_seed=subseed(seed, f"c06seed/{i}")),
-                   clock=dict(mode="const"), faults=[], monitors=[], fstar=0.0, gap_tol=1e-2, population="clean")
+                   clock=dict(mode="const"), faults=[], monitors=[], fstar=(OFFSETS[i % len(OFFSETS)] if offset else 0.0),
+                   gap_tol=1e-2, population="offset" if offset else "clean")
         cases.append(scn)
     return cases
 
@@ -46,7 +53,8 @@ def main(tier):
     seed = harness.default_seed(tier)
     rep = harness.Report("C06", tier, seed)
     n = 80 if tier == "quick" else 960
-    cases = panel(seed, n)
+    n_off = 64 if tier == "quick" else 480
+    cases = panel(seed, n) + panel(seed, n_off, offset=True)
     t0 = time.time()
     recs = harness.run_batch(run.run_scenario, cases, timeout=600, report=rep)
     pairs = list(zip(cases, recs))
@@ -70,20 +78,25 @@ def main(tier):
         if len(samples) < 3:
             samples.append(dict(index=scn["index"], D=scn["D"], ev=scn["target"]["ev"], c=scn["target"]["c"], x0=scn["x0"],
                                 gap=r["gap"], evals_to_1e_2=r["evals_to_tol"], n_calls=r["n_calls"]))
-    frac, med, ratios = judge_panel(pairs)
-    if n >= 60:
-        if frac < 0.90:
-            rep.add_violation("panel-accuracy", f"only {frac:.3f} of the panel of {n} returned a value within 1e-3 of the minimum (>= 0.90 required)",
-                              dict(seed=seed, n=n), "c06panel")
-        if med > 40:
-            rep.add_violation("panel-speed", f"panel median evaluations-to-1e-2 is {med:.1f}*D (<= 40*D required)",
-                              dict(seed=seed, n=n), "c06panel")
+    frac, med, ratios = judge_panel(pairs[:n])
+    frac_o, med_o, ratios_o = judge_panel(pairs[n:])
+    for nn, fr, md, off in ((n, frac, med, False), (n_off, frac_o, med_o, True)):
+        if nn >= 60:
+            tag = "-offset" if off else ""
+            if fr < 0.90:
+                rep.add_violation("panel-accuracy" + tag, f"only {fr:.3f} of the {'offset ' if off else ''}panel of {nn} returned a value within 1e-3 of the minimum (>= 0.90 required)",
+                                  dict(seed=seed, n=nn, offset=off), "c06panel")
+            if md > 40:
+                rep.add_violation("panel-speed" + tag, f"{'offset ' if off else ''}panel median evaluations-to-1e-2 is {md:.1f}*D (<= 40*D required)",
+                                  dict(seed=seed, n=nn, offset=off), "c06panel")
     wall = time.time() - t0
     fin = [x for x in ratios if np.isfinite(x)]
     cov = dict(
         evaluations=len([r for r in recs if r is not None]),
         distinct_nontrivial=len({harness.scn_digest(s) for s, r in pairs if r is not None and r["outcome"] == "completed"}),
         rule="seeded panel of random rotated quadratics (eigenvalues log-uniform in [1,100], minimiser in [-4,4]^D, x0 in [-5,5]^D, box [-10,10]^D, D cycling 1..5, default options); non-trivial = completed run",
+        offset_panel=dict(n=n_off, offsets=OFFSETS, fraction_within_1e_3=frac_o, median_evals_to_1e_2_per_D=med_o,
+                          note="same family plus a constant offset (|f*| up to 1e5): still smooth convex targets of the statement"),
         panel=dict(n=n, fraction_within_1e_3=frac, median_evals_to_1e_2_per_D=med,
                    p90_evals_to_1e_2_per_D=float(np.percentile(fin, 90)) if fin else None,
                    never_reached_1e_2=len(ratios) - len(fin), never_worse_than_start_checked=never_worse_checked),
@@ -98,9 +111,9 @@ def main(tier):
 
 
 def replay_panel(prop, cls, case):
-    cases = panel(case["seed"], case["n"])
+    cases = panel(case["seed"], case["n"], offset=bool(case.get("offset")))
     res = pool.run_tasks(run.run_scenario, cases, timeout=600)
     pairs = [(s, r if st == "ok" else None) for s, (st, r) in zip(cases, res)]
     frac, med, _ = judge_panel(pairs)
-    hit = (cls == "panel-accuracy" and frac < 0.90) or (cls == "panel-speed" and med > 40)
+    hit = (cls.startswith("panel-accuracy") and frac < 0.90) or (cls.startswith("panel-speed") and med > 40)
     return hit, dict(fraction_within_1e_3=frac, median_per_D=med)
